@@ -377,6 +377,10 @@ class Handler(object):
 
     def __init__(self, name, body):
         self.name = name
+        # "early take" inside the guard switch: in the listed states one element is taken at once and its subtree skipped
+        #   case STATE_A: case STATE_B: if (strcmp (element_name, "x") == 0 && MORE) { ...; state_switch (ctx, STATE_PASSTHROUGH); return TRUE; } break;
+        self.early = []        # (states, element, extra condition, statements)
+        body = self._take_early(body)
         self.body = body
         m = ACTION_RE.search(body)
         self.prefix = body[:m.start()] if m else body
@@ -425,8 +429,30 @@ class Handler(object):
         for tm in re.finditer(r'if \(ctx->state == STATE_(\w+)\)\s*target_state = STATE_(\w+);', body):
             self.if_targets[tm.group(1)] = tm.group(2)
 
+    def _take_early(self, body):
+        out = body
+        for lm in re.finditer(r'((?:case STATE_\w+:\s*)+)if \(', body):
+            close = match_paren(body, lm.end() - 1)
+            cond = body[lm.end():close - 1]
+            cm = re.match(r'\s*strcmp \(element_name, "([^"]+)"\) == 0\s*(?:&&(.*))?$', cond, re.S)
+            bm = re.match(r'\s*\{', body[close:])
+            if not cm or not bm:
+                continue
+            be = match_paren(body, close + bm.end() - 1, '{', '}')
+            block = body[close + bm.end():be - 1]
+            if not re.search(r'state_switch \(ctx, STATE_PASSTHROUGH\);\s*return TRUE;\s*$', block):
+                continue
+            states = re.findall(r'case STATE_(\w+):', lm.group(1))
+            self.early.append((states, cm.group(1), norm(cm.group(2) or ''), [norm(x) for x in block.split(';') if norm(x)]))
+            # leave the labels (and the `break` that follows) in place, take the if-block out
+            out = out.replace(body[lm.end() - 4:be], '', 1)
+        return out
+
     def decide(self, state, element, node):
         """None if the function returns FALSE (not its element), else dict(target, prelude, switch, push)"""
+        for states, el, _extra, _st in self.early:
+            if state in states and element == el:
+                return {'target': 'PASSTHROUGH', 'prelude': False, 'switch': True, 'push': False}
         env = {'state': state, 'element': element, 'node': node, 'vars': {'found': False}, 'assign': {}}
         try:
             for name, rhs in self.locals:
@@ -837,6 +863,9 @@ def main():
         if handlers[n].prelude:
             shape('%s has both introspectable_prelude and a hand-written introspectable test' % n)
         helpers.append((n + ':own-introspectable-test', handlers[n].own_test))
+    for n, h in sorted(handlers.items()):
+        for e_states, e_el, e_extra, e_stmts in h.early:
+            helpers.append(('%s:early-take:%s' % (n, e_el), ['states ' + ' '.join(e_states), 'if ' + e_extra] + e_stmts))
     # any other state_switch to PASSTHROUGH inside a start_* function must be unconditional (start_instance_parameter)
     for n, h in handlers.items():
         if 'STATE_PASSTHROUGH' in h.switches and len([x for x in h.switches if x.startswith('STATE_')]) != 1:
